@@ -21,13 +21,13 @@ namespace rkcommon {
            prev = fnd + 1, fnd = str.find(delim, prev)) {
         // Discard repeated tokens in the string, e.g. tokeninzing a::c::b on
         // ':' should just return a, c, b
-        if (fnd - prev > 1) {
+        if (fnd - prev > 0) {
           tokens.push_back(str.substr(prev, fnd - prev));
         }
       }
       // Grab the last token in the string, if the string didn't terminate with
       // a delimiter
-      if (str.size() - prev > 1) {
+      if (str.size() - prev > 0) {
         tokens.push_back(str.substr(prev));
       }
     }
